@@ -1,5 +1,6 @@
 import PkgModel.PyRt
 import PkgModel.PyRx
+import PkgModel.PySet
 import PkgModel.Repr
 /-!
 # PyX7 — run-time additions of the seventh translator round
@@ -48,5 +49,118 @@ def const_dict_getitem (kvs : List (PyVal × PyVal)) (k : PyVal) : M PyVal :=
   match kvs.find? (fun kv => PyVal.eq kv.1 k) with
   | some kv => pure kv.2
   | Option.none => throw "KeyError"
+
+end PyX7
+
+/-! ## exceptions as objects
+
+Code translated in earlier rounds raises *class names* (`M = Except PyExc`).  The functions of this round that handle exception
+*objects* (`except C as e`, `exceptions.append(e)`, `raise ExceptionGroup(msg, list)`) run in `MX = Except Exc`: an exception
+in flight is either a legacy class name (raised by a callee in `M`, lifted) or an object `obj cls fields`.  What an exception
+object keeps: its class and the attributes its own `__init__` sets (`InvalidMetadata.field`); the message (`args`),
+`__cause__`, `__context__`, `__traceback__` and notes are not kept.  An `ExceptionGroup` keeps `.exceptions` (a tuple). -/
+namespace PyX7
+open Py PyRt
+
+inductive Exc where
+  | cls (c : PyExc)
+  | obj (v : PyVal)
+  deriving Inhabited
+
+abbrev MX := Except Exc
+
+def liftX {α} : M α → MX α
+  | .ok a => .ok a
+  | .error c => .error (.cls c)
+
+instance : MonadLift M MX := ⟨liftX⟩
+
+/-- the class of an exception in flight -/
+def excClass : Exc → String
+  | .cls c => c
+  | .obj v => className v
+
+/-- the value `except C as e` binds: a legacy exception appears as an object of its class without attributes -/
+def excValue : Exc → PyVal
+  | .cls c => .obj c []
+  | .obj v => v
+
+def catchesX (handler : PyExc) (e : Exc) : Bool := PyRt.catches handler (excClass e)
+
+/-- `raise <object>` -/
+def raise_obj {α} (v : PyVal) : MX α := .error (.obj v)
+
+/-- for `src.call`: an escaping exception object is answered as the value `raised{exc=…}`, a legacy one by its class -/
+def runX : MX PyVal → M PyVal
+  | .ok v => .ok v
+  | .error (.cls c) => .error c
+  | .error (.obj v) => .ok (.obj "raised" [("exc", v)])
+
+/-- `ExceptionGroup(msg, excs)`: the message is not kept; an empty sequence is `ValueError` -/
+def exception_group (excs : PyVal) : M PyVal :=
+  match excs with
+  | .list l => if l.isEmpty then throw valueError else pure (.obj "ExceptionGroup" [("exceptions", .tuple l)])
+  | .tuple l => if l.isEmpty then throw valueError else pure (.obj "ExceptionGroup" [("exceptions", .tuple l)])
+  | _ => throw typeError
+
+/-! ## class and instance dictionaries, the descriptor protocol -/
+
+/-- `cls.__dict__.get(key)` restricted to what the caller can tell apart: the descriptor objects of the class
+(`table`, generated from the class) or `None`-like for every other entry / missing key -/
+def class_dict_get (table : List (Str × PyVal)) (key : PyVal) : M PyVal :=
+  if !hashable key then throw typeError else
+  match key with
+  | .str k => pure (match table.find? (fun kv => kv.1 == k) with | some kv => kv.2 | Option.none => .none)
+  | _ => pure .none
+
+/-- the instance `__dict__` (the field list of the record) looked up by a run-time name: `(v,)` or `None` -/
+def inst_lookup (o key : PyVal) : M PyVal :=
+  match o, key with
+  | .obj _ fs, .str k => pure (match lookupField fs (toStringLossy k) with | some v => .tuple [v] | Option.none => .none)
+  | .obj _ _, _ => throw typeError
+  | _, _ => throw attributeError
+
+/-- `L.index(x)` for a list constant -/
+def list_index (l x : PyVal) : M PyVal :=
+  match l with
+  | .list xs | .tuple xs =>
+    (match xs.findIdx? (fun y => PyVal.eq y x) with
+     | some i => pure (.int i)
+     | Option.none => throw valueError)
+  | _ => throw attributeError
+
+/-! ## sets of plain values (strings) -/
+
+/-- `frozenset(d)` for a dict: its keys -/
+def set_of_keys (d : PyVal) : M PyVal :=
+  match d with
+  | .dict kvs => pure (PyRx.mkSet "frozenset" (kvs.map (·.1)))
+  | _ => throw typeError
+
+def memPlain (x : PyVal) (l : List PyVal) : Bool := l.any fun y => PyVal.eq y x
+
+/-- `a | b` on sets of plain values: members of `a`, then the members of `b` not yet present -/
+def set_union_plain (a b : PyVal) : M PyVal :=
+  match PyRx.setItems a, PyRx.setItems b with
+  | some la, some lb => pure (PyRx.mkSet "frozenset" (la ++ lb.filter fun y => !memPlain y la))
+  | _, _ => throw typeError
+
+/-- `a - b` on sets of plain values -/
+def set_diff_plain (a b : PyVal) : M PyVal :=
+  match PyRx.setItems a, PyRx.setItems b with
+  | some la, some lb => pure (PyRx.mkSet "frozenset" (la.filter fun x => !memPlain x lb))
+  | _, _ => throw typeError
+
+/-- `sorted(xs, key=str)` for members that are `str` (then `key=str` is the identity); anything else is outside the run-time -/
+def sorted_key_str (xs : PyVal) : M PyVal := PySet.sorted_ xs
+
+end PyX7
+
+namespace PyX7
+open Py PyRt
+
+/-- `k in D` for a module-level dict of constants (its keys) -/
+def const_keys_contains (keys : List PyVal) (k : PyVal) : M PyVal :=
+  if !hashable k then throw typeError else pure (.bool (keys.any fun y => PyVal.eq y k))
 
 end PyX7
